@@ -104,6 +104,39 @@ static void roundTripEncoding(const char* enc, const std::string& txt)
 	catch (std::exception& e) { R->violation(k + "/roundtrip/exception", std::string(e.what()) + "\n" + txt); }
 }
 
+// the symbolic encodings also offer a "symbolic" serialisation (symbols written as bit strings):
+// load text, dump symbolically, load that symbolically, dump normally == first normal dump
+template <class A>
+static void roundTripSymbolic(const char* enc, const std::string& txt)
+{
+	std::string k = std::string("C13/") + enc;
+	R->phase(std::string(enc) + " symbolic dump/load");
+	try
+	{
+		A a; AutBase::StateDict sd; a.LoadFromString(parser(), txt, sd); std::string t2 = a.DumpToString(serializer(), sd);
+		std::string ts = a.DumpToString(serializer(), sd, "symbolic");
+		A b; AutBase::StateDict sd2; b.LoadFromString(parser(), ts, sd2, "symbolic");
+		std::string t3 = b.DumpToString(serializer(), sd2), ts2 = b.DumpToString(serializer(), sd2, "symbolic");
+		AutDescription d2 = parser().ParseString(t2), d3 = parser().ParseString(t3), s1 = parser().ParseString(ts), s2 = parser().ParseString(ts2);
+		R->count(std::string("roundtrip-symbolic:") + enc);
+		if (!(d2.transitions == d3.transitions)) R->violation(k + "/symbolic-dump-load/rules-differ", "dump:\n" + t2 + "symbolic dump:\n" + ts + "dump after loading the symbolic dump:\n" + t3);
+		else if (!(d2.finalStates == d3.finalStates)) R->violation(k + "/symbolic-dump-load/final-states-differ", "dump:\n" + t2 + "symbolic dump:\n" + ts + "dump after loading the symbolic dump:\n" + t3);
+		if (!(s1.transitions == s2.transitions) || !(s1.finalStates == s2.finalStates)) R->violation(k + "/symbolic-dump-load-dump/differs", "first symbolic dump:\n" + ts + "second:\n" + ts2);
+		if (!d2.transitions.empty() && s1.transitions.empty()) R->violation(k + "/symbolic-dump/empty", ts);
+		{	// the top-down encoding cannot dump symbolically but loads symbolic text
+			R->phase("bdd-td load of a symbolic dump");
+			BDDTopDownTreeAut c; AutBase::StateDict sd3; c.LoadFromString(parser(), txt, sd3); std::string t4 = c.DumpToString(serializer(), sd3);
+			BDDTopDownTreeAut d; AutBase::StateDict sd4; d.LoadFromString(parser(), ts, sd4, "symbolic"); std::string t5 = d.DumpToString(serializer(), sd4);
+			AutDescription d4 = parser().ParseString(t4), d5 = parser().ParseString(t5);
+			R->count("roundtrip-symbolic:bdd-td-load");
+			if (!(d4.transitions == d5.transitions)) R->violation("C13/bdd-td/symbolic-load/rules-differ", "dump after normal load:\n" + t4 + "symbolic text:\n" + ts + "dump after symbolic load:\n" + t5);
+			else if (!(d4.finalStates == d5.finalStates)) R->violation("C13/bdd-td/symbolic-load/final-states-differ", "dump after normal load:\n" + t4 + "symbolic text:\n" + ts + "dump after symbolic load:\n" + t5);
+		}
+	}
+	catch (VATA::NotImplementedException&) { R->count(std::string("symbolic-serialisation-not-implemented:") + enc); }
+	catch (std::exception& e) { R->violation(k + "/symbolic-roundtrip/exception", std::string(e.what()) + "\n" + txt); }
+}
+
 static void caseRoundTrip(vh::Rng& g)
 {
 	bool hostile = g.chance(2, 3);
@@ -145,7 +178,7 @@ static void caseRoundTrip(vh::Rng& g)
 	if (!d.transitions.empty()) { R->nontrivial(vh::fnv("rt" + txt)); if (R->wantSample()) R->sample("round trip:\n" + txt); }
 	roundTripEncoding<ExplicitTreeAut>("expl", txt);
 	// the symbolic encodings have a process-wide alphabet with 16-bit codes: only plain names there
-	if (!hostile) { roundTripEncoding<BDDBottomUpTreeAut>("bdd-bu", txt); roundTripEncoding<BDDTopDownTreeAut>("bdd-td", txt); }
+	if (!hostile) { roundTripEncoding<BDDBottomUpTreeAut>("bdd-bu", txt); roundTripEncoding<BDDTopDownTreeAut>("bdd-td", txt); roundTripSymbolic<BDDBottomUpTreeAut>("bdd-bu", txt); roundTripSymbolic<BDDTopDownTreeAut>("bdd-td", txt); }
 	{	// word automata: rank <= 1, nullary rules are start states
 		AutDescription w = genDesc(g, 1, hostile); std::string wt = serializer().Serialize(w); R->desc(wt);
 		roundTripEncoding<ExplicitFiniteAut>("expl_fa", wt);
